@@ -82,11 +82,22 @@ def check(ctx):
             raise AnalysisError(f'anchor {c.name}.{op} not found')
         g = ctx.graph(c, op)
         muts = [n for n in g.nodes.values() if is_mutation(g, n)]
+        # a call of a pool operation of the same object that was not inlined (the operation calling itself, e.g. once per entry of a
+        # dictionary argument) both changes state and can raise
+        op_names = {nm for k, nm in ops if k is c}
+        nested = [n for n in g.nodes.values() if any(call_attr(cl) in op_names and is_self_attr(cl.func) for cl in calls_at(g, n))]
+        has_raise = any(x.kind == 'raise' and not isinstance(x.ast, ast.Assert) for x in g.nodes.values())
+        muts += [n for n in nested if n not in muts]
         nmut += len(muts)
         o.count(max(1, len(muts)))
         if muts:
             o.witness((c.name, op))
         after = g.reach([m for x in muts for _, m in g.succ[x.id]], follow=lambda l: True) if muts else set()
+        for n in nested:
+            if has_raise and n.id in after:
+                first = min(muts, key=lambda x: x.line or 0)
+                o.fail(P, f'{c.name}.{op}', None, f'the operation applies itself entry by entry: a later entry can be rejected (raise) after earlier entries have already changed state '
+                       f'(first change at line {first.line}): a failing call is not all-or-nothing', node=n)
         for i in sorted(after):
             n = g.nodes[i]
             if n.kind == 'raise' and g.raise_exit in g.reach([i], follow=lambda l: True):
